@@ -52,8 +52,13 @@ NS == NF - 1
 Required == {<<"title">>, <<"mid", "name">>, <<"mid", "inner", "host">>, <<"direct_leaf", "port">>}
 Prefixes == {"app", "App", "MY_APP", "my_app2", "my-app"}
 
-VARIABLES f1, s1, f2, s2, invalid, prefix
-vars == <<f1, s1, f2, s2, invalid, prefix>>
+CONSTANT SkipUnsetSections   \* FALSE: as coded.  TRUE (sensitivity): a nested section left entirely unset is not validated
+VARIABLES f1, s1, f2, s2, invalid, prefix, unsetSection
+vars == <<f1, s1, f2, s2, invalid, prefix, unsetSection>>
+\* required fields that are the only required field of their section: the section can be left entirely unset (every field zero) and
+\* the offending field is still that one
+InSection(path, inv) == LET n == Len(inv) - 1 IN Len(path) > n /\ SubSeq(path, 1, n) = SubSeq(inv, 1, n)
+SoleRequired == {<<"mid", "inner", "host">>, <<"direct_leaf", "port">>}
 
 NonEmptySubsets == (SUBSET Sources) \ {{}}
 \* for the second subject a few representative source sets
@@ -63,6 +68,8 @@ Init == /\ f1 \in 1..NS /\ s1 \in NonEmptySubsets
         /\ \/ f2 = 0 /\ s2 = {} /\ invalid \in {<<>>} \cup Required
            \/ f2 \in (f1 + 1)..NS /\ s2 \in SecondSets /\ invalid = <<>>
         /\ prefix \in Prefixes
+        \* the invalidated field is emptied alone, or together with its whole section (no field of it set by any source)
+        /\ unsetSection \in BOOLEAN /\ (unsetSection => (invalid \in SoleRequired /\ ~InSection(Fields[f1].path, invalid)))
         \* the scenario space is kept tractable: the prefix varies with the first field only
         /\ prefix = (CHOOSE p \in Prefixes : TRUE) \/ (f2 = 0 /\ invalid = <<>>)
 Next == UNCHANGED vars
@@ -88,12 +95,15 @@ ExplicitFlagWins == "flagset" \in s1 => Winner(s1) = "flagset"
 FileBeatsDefaults == ("file" \in s1 /\ "flagset" \notin s1 /\ "env" \notin s1) => Winner(s1) = "file"
 EnvNamesDistinct == Cardinality(AllEnvNames) = NF
 
+\* validation reaches every nesting level: an invalidated field makes loading fail, whatever else its section holds
+Rejected == invalid # <<>> /\ ~(SkipUnsetSections /\ unsetSection)
+EveryLevelValidated == invalid # <<>> => Rejected
 InvalidNames == IF invalid = <<>> THEN <<>> ELSE invalid
 Scenario == [prefix |-> prefix,
              subjects |-> (IF f2 = 0 THEN <<[path |-> Fields[f1].path, kind |-> Fields[f1].kind, sources |-> s1, winner |-> Winner(s1), env |-> EnvName(prefix, Fields[f1].path)]>>
                            ELSE <<[path |-> Fields[f1].path, kind |-> Fields[f1].kind, sources |-> s1, winner |-> Winner(s1), env |-> EnvName(prefix, Fields[f1].path)],
                                   [path |-> Fields[f2].path, kind |-> Fields[f2].kind, sources |-> s2, winner |-> Winner(s2), env |-> EnvName(prefix, Fields[f2].path)]>>),
-             invalid |-> InvalidNames,
+             invalid |-> InvalidNames, unsetSection |-> unsetSection,
              envNames |-> AllEnvNames]
 Emit == PrintT(<<"BEHAVIOUR", ToJson(Scenario)>>)
 =============================================================================
